@@ -327,11 +327,11 @@ Example C10_wiring_nonvacuous :
                    w_frame := []; w_unmarshal := w_unmarshal_rejects; w_reset := []; w_copy := true; w_setters := []; w_getters := [] |} in
   let db := {| db_source_file := []; db_version := []; db_messages := [e 1; e 2; e 3; C03_example_message];
                db_nodes := [{| node_name := [78]; node_description := [] |}] |} in
-  let p := {| p_enums := []; p_wirings := [we 1 0; we 2 1; we 3 2; C10_example_wiring [105; 110; 116; 54; 52]]; p_nodes := [([78], 0)];
+  let p := {| p_nodegens := []; p_enums := []; p_wirings := [we 1 0; we 2 1; we 3 2; C10_example_wiring [105; 110; 116; 54; 52]]; p_nodes := [([78], 0)];
               p_dispatch := [Some [1]; Some [2]; Some [3]; Some [77]; None] |} in
   package_wiring_ok db p = true /\ dispatch_ok db p = true /\
   wiring_dispatch db p (frame_of C03_example_message [1; 1; -5; 0; 0x40490FDB]) =
     Some (Some (C03_example_message, inr [1; 1; -5; 0; 0x40490FDB])) /\
   (* the same wirings in a package whose md entry of message 3 points at index 2 are refused *)
-  package_wiring_ok db {| p_enums := []; p_wirings := [we 1 0; we 2 1; we 3 2; we 77 2]; p_nodes := [([78], 0)]; p_dispatch := [] |} = false.
+  package_wiring_ok db {| p_nodegens := []; p_enums := []; p_wirings := [we 1 0; we 2 1; we 3 2; we 77 2]; p_nodes := [([78], 0)]; p_dispatch := [] |} = false.
 Proof. vm_compute. repeat split; reflexivity. Qed.
